@@ -309,6 +309,7 @@ KIND_OP = {'create': OP.CREATE, 'register': OP.REGISTER, 'create_key_pair': OP.C
            'activate': OP.ACTIVATE, 'revoke': OP.REVOKE, 'destroy': OP.DESTROY, 'encrypt': OP.ENCRYPT, 'decrypt': OP.DECRYPT,
            'sign': OP.SIGN, 'signature_verify': OP.SIGNATURE_VERIFY, 'mac': OP.MAC, 'modify_attribute': OP.MODIFY_ATTRIBUTE,
            'delete_attribute': OP.DELETE_ATTRIBUTE, 'set_attribute': OP.SET_ATTRIBUTE}
+MUTATING_KINDS = ('activate', 'revoke', 'destroy', 'modify_attribute', 'delete_attribute', 'set_attribute')
 ADDR_KINDS = ['get', 'get_attributes', 'get_attribute_list', 'activate', 'revoke', 'destroy', 'encrypt', 'decrypt', 'sign',
               'signature_verify', 'mac', 'modify_attribute', 'delete_attribute', 'set_attribute']
 V2_SAFE = ['get', 'get_attributes', 'get_attribute_list', 'activate', 'destroy', 'locate', 'set_attribute', 'modify_attribute', 'revoke']
@@ -427,16 +428,28 @@ def pol_attr(pol):
     return [kdrv.attr(kdrv.AT.OPERATION_POLICY_NAME, pol)] if pol is not None else []
 
 
+def extra_attrs(it):
+    """multi-valued attributes given at creation: 'ogroups': [text...], 'asi': [[namespace, data]...]"""
+    out = []
+    for g in it.get('ogroups', ()):
+        out.append(kdrv.attr(kdrv.AT.OBJECT_GROUP, g))
+    for ns, data in it.get('asi', ()):
+        out.append(kdrv.attr(kdrv.AT.APPLICATION_SPECIFIC_INFORMATION, {'application_namespace': ns, 'application_data': data}))
+    return out
+
+
 def build_item(it, version):
     """step item descriptor (plain dict) -> (Operation, payload)"""
     k = it['k']
     uid = it.get('uid')
     v2 = version >= (2, 0)
     if k == 'create':
-        return kdrv.create(mask=MASK, extra=pol_attr(it.get('pol')))
+        return kdrv.create(mask=MASK, names=it.get('names', ()), extra=pol_attr(it.get('pol')) + extra_attrs(it))
     if k == 'register':
         t = OT[it['type']]
-        attrs = pol_attr(it.get('pol'))
+        attrs = pol_attr(it.get('pol')) + extra_attrs(it)
+        for i, n in enumerate(it.get('names', ())):
+            attrs.append(kdrv.attr(kdrv.AT.NAME, kdrv.name_value(n), i))
         if t != OT.OPAQUE_DATA:
             attrs.append(kdrv.attr(kdrv.AT.CRYPTOGRAPHIC_USAGE_MASK, list(MASK)))
         return kdrv.register(t, attrs=attrs)
@@ -491,14 +504,80 @@ def build_item(it, version):
             cryptographic_parameters=kdrv.crypto_params(cryptographic_algorithm=E.CryptographicAlgorithm.HMAC_SHA256),
             data=cobjects.Data(b'data')))
     if k == 'modify_attribute':
+        what = it.get('attr')
         if v2:
+            if what == 'group':
+                return kdrv.modify_attribute_v2(uid, kdrv.attr_value('OBJECT_GROUP', it['val']),
+                                                kdrv.attr_value('OBJECT_GROUP', it['old']) if it.get('old') else None)
             return kdrv.modify_attribute_v2(uid, kdrv.attr_value('SENSITIVE', bool(it.get('flag'))))
+        if what == 'group':
+            return kdrv.modify_attribute_v1(uid, kdrv.attr(kdrv.AT.OBJECT_GROUP, it['val'], it.get('index', 0)))
+        if what == 'asi':
+            return kdrv.modify_attribute_v1(uid, kdrv.attr(kdrv.AT.APPLICATION_SPECIFIC_INFORMATION,
+                                                           {'application_namespace': it['val'][0], 'application_data': it['val'][1]}, it.get('index', 0)))
+        if what == 'name':
+            return kdrv.modify_attribute_v1(uid, kdrv.attr(kdrv.AT.NAME, kdrv.name_value(it['val']), it.get('index', 0)))
         return kdrv.modify_attribute_v1(uid, kdrv.attr(kdrv.AT.NAME, kdrv.name_value('n%d' % it.get('n', 0)), 0))
     if k == 'delete_attribute':
-        return kdrv.delete_attribute_v1(uid, 'Name', 0)
+        return kdrv.delete_attribute_v1(uid, {'group': 'Object Group', 'asi': 'Application Specific Information'}.get(it.get('attr'), 'Name'),
+                                        it.get('index', 0))
     if k == 'set_attribute':
         return kdrv.set_attribute(uid, kdrv.attr_value('SENSITIVE', bool(it.get('flag'))))
     raise KeyError(k)
+
+
+def schema_links(path):
+    """How the tables of the data store hang on managed objects, read from the schema itself (PRAGMA), so that a new
+    table is either classified or refused: uid tables (column `uid`), child tables (a foreign key to a uid table;
+    further foreign keys are followed to the row they reference, e.g. the object_group_map -> object_groups row)."""
+    import sqlite3
+    con = sqlite3.connect(path)
+    try:
+        tables = [r[0] for r in con.execute("select name from sqlite_master where type='table'") if r[0] != 'sqlite_sequence']
+        cols = {t: [r[1] for r in con.execute('pragma table_info("%s")' % t)] for t in tables}
+        fks = {t: [(r[3], r[2], r[4]) for r in con.execute('pragma foreign_key_list("%s")' % t)] for t in tables}   # (from, table, to)
+    finally:
+        con.close()
+    uid_tables = [t for t in tables if 'uid' in cols[t]]
+    child, referenced = {}, set()
+    for t in tables:
+        if t in uid_tables:
+            continue
+        own = [(c, rt) for c, rt, rc in fks[t] if rt in uid_tables and rc == 'uid']
+        if own:
+            others = {c: (rt, rc) for c, rt, rc in fks[t] if not (rt in uid_tables and rc == 'uid')}
+            child[t] = (own[0][0], others)
+            referenced.update(rt for rt, _ in others.values())
+    unknown = [t for t in tables if t not in uid_tables and t not in child and t not in referenced]
+    if unknown:
+        raise RuntimeError('data store tables the C03 oracle cannot attach to an object: %r' % unknown)
+    return {'uid': uid_tables, 'child': child}
+
+
+def object_states(dump, links):
+    """{uid text: canonical full state of the object}: its row in every uid table and, for every child table, the
+    multiset of its rows with surrogate ids dropped and references replaced by the content of the referenced row."""
+    st = {}
+    for t in links['uid']:
+        for r in dump.get(t, []):
+            st.setdefault(str(r['uid']), {})[t] = tuple(sorted((k, v) for k, v in r.items() if k != 'uid'))
+    for t, (own, others) in links['child'].items():
+        index = {rt: {r[rc]: r for r in dump.get(rt, [])} for rt, rc in others.values()}
+        for r in dump.get(t, []):
+            content = []
+            for k, v in r.items():
+                if k == own or k == 'id':
+                    continue
+                if k in others:
+                    rt, rc = others[k]
+                    ref = index[rt].get(v)
+                    v = tuple(sorted((a, b) for a, b in ref.items() if a != rc)) if ref is not None else ('dangling', v)
+                content.append((k, v))
+            st.setdefault(str(r[own]), {}).setdefault(t, []).append(tuple(sorted(content, key=repr)))
+    out = {}
+    for u, d in st.items():
+        out[u] = tuple(sorted(((t, tuple(sorted(v, key=repr)) if isinstance(v, list) else v) for t, v in d.items()), key=repr))
+    return out
 
 
 def rows_of(dump):
@@ -549,11 +628,12 @@ def hist_signature(P, user, groups, row, op, extra):
     return sig
 
 
-def oracle_request(ctx, eng, P, step, resp, rows0, dump0, dump1, notfound_tpl, report, unsuitable):
+def oracle_request(ctx, eng, P, step, resp, rows0, dump0, dump1, notfound_tpl, report, unsuitable, links=None):
     """Evaluate the property on one processed request.  `report(sig, detail, what)` records a violation."""
     user, groups = step['user'], step['groups']
     rows = dict(rows0)
     ph = None
+    may_change = set()
     items = step['items']
     single = len(items) == 1
     any_refused_or_ungranted = False
@@ -617,6 +697,12 @@ def oracle_request(ctx, eng, P, step, resp, rows0, dump0, dump1, notfound_tpl, r
         # a refusal with the access-control text changes nothing (checked on the whole database below)
         if not ok and r['reason'] == 'PERMISSION_DENIED' and r['message'].startswith(notfound_tpl.split(NEVER)[0]):
             any_refused_or_ungranted = True
+        # the one object a successful item may change: its primary object, and only under a grant
+        if ok and k in MUTATING_KINDS:
+            u = it.get('uid') if it.get('uid') else ph
+            row = rows.get(u) if u is not None else None
+            if row is not None and granted_spec(P, row[2], user, groups, row[1], OT(row[0]), REQUIRED_OP[k]):
+                may_change.add(u)
         # track the store and the ID placeholder the way the protocol defines them
         if ok:
             for (nu, nt, npol) in new_objects(it, r):
@@ -628,6 +714,24 @@ def oracle_request(ctx, eng, P, step, resp, rows0, dump0, dump1, notfound_tpl, r
     if any_refused_or_ungranted and all(r['status'] != 'SUCCESS' for r in resp['items']) and dump0 != dump1:
         report({'class': 'history', 'fails': 'store-changed'}, {'identity': [user, groups], 'items': items},
                'a refused request changed the database')
+    # NOTHING about any other object changes: the full attribute state (every table row that hangs on the object, names,
+    # object groups, application specific information, state, masks, ...) of every object that existed before the request
+    # and is not the granted primary object of one of its successful items is the same afterwards - also when the request
+    # succeeded on the requester's own objects (an effect through shared rows of the data store is an effect all the same)
+    if links is not None:
+        st0, st1 = object_states(dump0, links), object_states(dump1, links)
+        for u in sorted(st0, key=int):
+            if u in may_change or u not in rows0:
+                continue
+            if u not in st1 or st0[u] != st1[u]:
+                row = rows0[u]
+                diff = [t for t in dict(st0[u]) if dict(st0[u]).get(t) != dict(st1.get(u, ())).get(t)] if u in st1 else ['(object gone)']
+                report({'class': 'history', 'fails': 'foreign-object-changed'},
+                       {'identity': [user, groups], 'items': items, 'object': {'uid': u, 'type': OT(row[0]).name, 'owner': row[1], 'policy': row[2]},
+                        'tables_that_differ': diff,
+                        'before': repr([x for x in st0[u] if x[0] in diff])[:600], 'after': repr([x for x in st1.get(u, ()) if x[0] in diff])[:600]},
+                       'object %s (owner %s) changed (%s) by a request of %r that does not address it under a grant' % (
+                           u, row[1], ', '.join(diff), (user, groups)))
     # the access-control columns of surviving rows never change; new rows belong to the requester
     rows1 = rows_of(dump1)
     for u, row in rows1.items():
@@ -651,6 +755,7 @@ def run_history(ctx, P, steps, want_case=True, count=False, P_engine=None):
         if ref['reason'] != 'ITEM_NOT_FOUND' or NEVER not in (notfound_tpl or ''):
             raise RuntimeError('unexpected answer for an identifier that does not exist: %r' % ref)
         dump0 = eng.dump()
+        links = schema_links(eng.path)
         pair_made = set()                 # key pairs are created without the DeriveKey mask bit
         suitable_types = (OT.SECRET_DATA.value, OT.SYMMETRIC_KEY.value, OT.PUBLIC_KEY.value, OT.PRIVATE_KEY.value)
 
@@ -666,7 +771,7 @@ def run_history(ctx, P, steps, want_case=True, count=False, P_engine=None):
                 raise RuntimeError('request-level error in a generated history: %r' % resp['error'])
             dump1 = eng.dump()
             oracle_request(ctx, eng, P, step, resp, rows0, dump0, dump1, notfound_tpl,
-                           lambda sig, detail, what: viol.append((sig, detail, what, si)), unsuitable)
+                           lambda sig, detail, what: viol.append((sig, detail, what, si)), unsuitable, links)
             for it, r in zip(step['items'], resp['items']):
                 if it['k'] == 'create_key_pair' and r['status'] == 'SUCCESS':
                     pair_made.update(n[0] for n in new_objects(it, r))
@@ -751,6 +856,14 @@ def gen_history_live(ctx, rng, P, n_steps, locate_bias=False):
                     items.append({'k': 'register', 'type': rng.choice(TYPES).name, 'pol': pol})
                 else:
                     items.append({'k': 'create_key_pair', 'pol': pol})
+                if items[-1]['k'] != 'create_key_pair':
+                    # different owners use EQUAL multi-valued attribute values (small menus)
+                    if rng.random() < 0.5:
+                        items[-1]['ogroups'] = [rng.choice(SHARED_GROUPS)]
+                    if rng.random() < 0.4:
+                        items[-1]['asi'] = [list(rng.choice(SHARED_ASI))]
+                    if rng.random() < 0.4:
+                        items[-1]['names'] = [rng.choice(SHARED_NAMES)]
                 if rng.random() < 0.35:
                     items.append({'k': rng.choice(ADDR_KINDS[:6]), 'uid': None})
             elif x < (0.55 if locate_bias else 0.28):
@@ -771,7 +884,10 @@ def gen_history_live(ctx, rng, P, n_steps, locate_bias=False):
                 items.append({'k': 'get', 'uid': pick_uid(), 'prefail': True})
             elif x < 0.52:
                 version = (2, 0)
-                items.append({'k': rng.choice(['set_attribute', 'modify_attribute']), 'uid': pick_uid(), 'flag': rng.random() < 0.5})
+                it = {'k': rng.choice(['set_attribute', 'modify_attribute']), 'uid': pick_uid(), 'flag': rng.random() < 0.5}
+                if it['k'] == 'modify_attribute' and rng.random() < 0.5:
+                    it.update(attr='group', old=rng.choice(SHARED_GROUPS), val=rng.choice(SHARED_GROUPS + ['renamed-v2']))
+                items.append(it)
                 if rng.random() < 0.3:
                     k = rng.choice(['get', 'get_attributes', 'destroy', 'locate'])
                     items.append({'k': 'locate', 'type': None} if k == 'locate' else {'k': k, 'uid': pick_uid()})
@@ -783,6 +899,15 @@ def gen_history_live(ctx, rng, P, n_steps, locate_bias=False):
                         it['compromise'] = rng.random() < 0.5
                     if k == 'modify_attribute':
                         it['n'] = rng.randrange(3)
+                        z = rng.random()
+                        if z < 0.3:
+                            it.update(attr='group', val=rng.choice(SHARED_GROUPS + ['renamed-%d' % rng.randrange(3)]))
+                        elif z < 0.45:
+                            it.update(attr='asi', val=list(rng.choice(SHARED_ASI + [('ns', 'changed')])))
+                        elif z < 0.6:
+                            it.update(attr='name', val=rng.choice(SHARED_NAMES + ['other']))
+                    if k == 'delete_attribute' and rng.random() < 0.5:
+                        it['attr'] = rng.choice(['group', 'asi'])
                     items.append(it)
             step = {'user': user, 'groups': groups, 'version': list(version),
                     'cont': (len(items) > 1 and rng.random() < 0.4), 'items': items}
@@ -827,6 +952,41 @@ def corpus():
     h1.append(st('bob', None, [{'k': 'create', 'pol': None}, {'k': 'destroy', 'uid': None}]))
     h1.append(st('alice', None, [{'k': 'locate', 'type': None}]))
     return [h1]
+
+
+SHARED_GROUPS = ['payments', 'ops']
+SHARED_ASI = [('ns', 'd1'), ('ns', 'd2')]
+SHARED_NAMES = ['shared', 'backup']
+
+
+def shared_values_corpus():
+    """Different owners create objects with EQUAL multi-valued attribute values (object group, application specific
+    information, name); each then modifies / deletes those attributes on HIS OWN object (KMIP 1.x by index, 2.0 by
+    current/new value).  The other owners' objects must be exactly what they were (full attribute state)."""
+    def st(user, items, version=(1, 2)):
+        return {'user': user, 'groups': None, 'version': list(version), 'cont': False, 'items': items}
+    common = {'pol': None, 'ogroups': ['payments'], 'asi': [['ns', 'd1']], 'names': ['shared']}
+    h = []
+    for user in ('alice', 'alice', 'bob', 'bob', 'carol', 'carol'):
+        h.append(st(user, [dict(common, k='create')]))
+    h.append(st('carol', [dict(common, k='register', type='SECRET_DATA')]))
+    h.append(st('alice', [dict(common, k='register', type='CERTIFICATE')]))
+    for user, a, b in (('bob', '3', '4'), ('alice', '1', '2'), ('carol', '5', '6')):
+        h.append(st(user, [{'k': 'modify_attribute', 'uid': a, 'attr': 'group', 'val': user + '-private'}]))
+        h.append(st(user, [{'k': 'modify_attribute', 'uid': b, 'attr': 'group', 'old': 'payments', 'val': user + '-archive'}], version=(2, 0)))
+        h.append(st(user, [{'k': 'modify_attribute', 'uid': a, 'attr': 'asi', 'val': ['ns', user]}]))
+        h.append(st(user, [{'k': 'modify_attribute', 'uid': a, 'attr': 'name', 'val': user + '-key'}]))
+        h.append(st(user, [{'k': 'delete_attribute', 'uid': b, 'attr': 'asi'}]))
+        h.append(st(user, [{'k': 'delete_attribute', 'uid': b, 'attr': 'group'}]))
+        h.append(st(user, [{'k': 'delete_attribute', 'uid': b}]))
+        for other in ('alice', 'bob', 'carol'):
+            h.append(st(other, [{'k': 'get_attributes', 'uid': '1'}, {'k': 'get_attributes', 'uid': '3'}, {'k': 'get_attributes', 'uid': '5'}]))
+            h[-1]['cont'] = True
+            h.append(st(other, [{'k': 'locate', 'type': None}]))
+    h.append(st('carol', [{'k': 'modify_attribute', 'uid': '7', 'attr': 'group', 'val': 'carol-secret'}]))
+    h.append(st('alice', [{'k': 'destroy', 'uid': '1'}]))
+    h.append(st('bob', [{'k': 'revoke', 'uid': '3', 'compromise': True}]))
+    return [h]
 
 
 def locate_corpus():
@@ -926,6 +1086,8 @@ def histories(ctx):
         plan.append((Pc, Pc_engine, docc, h, 'locate-corpus-%d' % k))
     for k, h in enumerate(indirect_corpus()):
         plan.append((Pc, Pc_engine, docc, h, 'indirect-corpus-%d' % k))
+    for k, h in enumerate(shared_values_corpus()):
+        plan.append((Pc, Pc_engine, docc, h, 'shared-values-corpus-%d' % k))
     for k in range(n_hist):
         doc = random_policy_document(rng)
         P, P_engine = load_document(ctx, doc)
